@@ -354,6 +354,18 @@ func (c *CheckCtx) docCases() ([]*docCase, error) {
 			return nil, inconclusive("MC_Docs violates %s in the specification itself", res2.ViolatedBy)
 		}
 		c.model("MC_Docs.cfg", res2, true, "MaskedIndependence holds for all pairs of documents")
+		dir3, err := specDir(c.Sc, c.Sc.Next("mc"))
+		if err != nil {
+			return nil, err
+		}
+		res3, err := runTLC(dir3, "MC_Docs_gen.tla", "MC_Docs_thorough.cfg", c.Workers, 30*time.Minute)
+		if err != nil {
+			return nil, err
+		}
+		if res3.Violation {
+			return nil, inconclusive("MC_Docs violates %s in the specification itself", res3.ViolatedBy)
+		}
+		c.model("MC_Docs_thorough.cfg", res3, true, "OnlyTargetsChange and FailuresNamed for every sequence of up to three matchers")
 	}
 	return cases, nil
 }
